@@ -178,6 +178,10 @@ type connScript struct {
 	// confirm the previous one is thereby caught: its Items is smaller than what it must have read. A slow client
 	// only makes Items larger, so the observation is one-sided and load cannot produce a false alarm.
 	PeekMs int `json:"peek_ms,omitempty"`
+	// LingerMs > 0 (C04): after a FAILED TLS handshake the server does not hang up: it goes on reading the raw socket
+	// for this long (or until it is cut) and logs what arrives there (RawBy) -- a client that refused the certificate
+	// holds that connection open for a while, and nothing but its </stream:stream> may be written on it.
+	LingerMs int `json:"linger_ms,omitempty"`
 }
 
 type connLog struct {
@@ -524,6 +528,10 @@ func (s *scriptedServer) serve(conn net.Conn, sc connScript, lg *connLog) {
 					s.mu.Lock()
 					lg.TLS = "handshake-error"
 					s.mu.Unlock()
+					if sc.LingerMs > 0 {
+						conn.SetReadDeadline(time.Now().Add(time.Duration(sc.LingerMs) * time.Millisecond))
+						io.Copy(io.Discard, sinkConn{conn, &lg.RawBy, &s.mu})
+					}
 					end("tls-handshake-failed")
 					return
 				}
